@@ -827,7 +827,27 @@ class PCE500Memory:
             if needs_python:
                 fallback.append((start, end))
 
+        # The memory card lives behind handlers, not in an overlay payload:
+        # flatten its contents too so snapshots carry what was written to it.
+        if self._card_present:
+            card_len = min(self._card_len, blob_len - MEMORY_CARD_SLOT_START)
+            if card_len > 0:
+                blob[MEMORY_CARD_SLOT_START : MEMORY_CARD_SLOT_START + card_len] = (
+                    self._card_data[:card_len]
+                )
+
         return bytes(blob), tuple(fallback), tuple(readonly)
+
+    def import_memory_card(self, flat_memory: bytes) -> None:
+        """Restore the memory-card contents from a flattened image."""
+
+        if not self._card_present:
+            return
+        card_len = min(self._card_len, len(flat_memory) - MEMORY_CARD_SLOT_START)
+        if card_len > 0:
+            self._card_data[:card_len] = flat_memory[
+                MEMORY_CARD_SLOT_START : MEMORY_CARD_SLOT_START + card_len
+            ]
 
     def apply_external_writes(self, writes: Iterable[Tuple[int, int]]) -> None:
         """Apply external-memory writes that originated from the LLAMA backend."""
